@@ -14,8 +14,10 @@
 #ifdef VH_VALGRIND
 #include <valgrind/memcheck.h>
 #define ERRCOUNT() ((unsigned)VALGRIND_COUNT_ERRORS)
+#define ON_VALGRIND() RUNNING_ON_VALGRIND
 #else
 #define ERRCOUNT() 0u
+#define ON_VALGRIND() 0
 #endif
 
 static int maxbe[CIPH_N];
@@ -60,6 +62,12 @@ static void call_end(const char *params)
 
 static uint8_t SEC[700000] __attribute__((aligned(64))), OUT[700000] __attribute__((aligned(64))), TW[700000] __attribute__((aligned(64)));
 
+static unsigned aged_changes(void)
+{
+    static unsigned n;
+    if (!n) { n = (unsigned)atoi(vh_getarg("aged", "0")); if (!n) n = ON_VALGRIND() ? 300 : 65600; }
+    return n;
+}
 static void case_plain(uint64_t k, vh_rng *r)
 {
     /* key-schedule and single-block functions: every legal key / tweak length */
@@ -69,15 +77,23 @@ static void case_plain(uint64_t k, vh_rng *r)
         unsigned bb = f ? 8 : 16, sub = (unsigned)((k / 3) % 3), L;
         uint64_t q = k / 9;
         uint8_t *key = SEC, *blk = SEC + 64, *tw = SEC + 96, out[16];
-        Skinny128TweakedKey_t a128; Skinny64TweakedKey_t a64;
+        Skinny128TweakedKey_t a128; Skinny64TweakedKey_t a64; int aged = 0;
         vh_rand_bytes(r, SEC, 128); PUBLIC(SEC, 128);
         if (sub == 0) { L = bb + (unsigned)(q % (2 * bb + 1)); snprintf(params, sizeof(params), "set_key len=%u", L); }
         else if (sub == 1) { L = bb + (unsigned)(q % (bb + 1)); snprintf(params, sizeof(params), "set_tweaked_key len=%u", L); }
         else { L = 1 + (unsigned)(q % bb); snprintf(params, sizeof(params), "set_tweak len=%u", L); }
+        if (sub == 2 && q % 50 == 27) {
+            /* an "old" schedule: tens of thousands (under valgrind: hundreds) of earlier tweak changes with public values, so that
+               code which switches strategy after the 256th / 65536th change is reached before the secret tweak arrives */
+            unsigned n, N = aged_changes(); uint8_t pt[16];
+            if (bb == 16) skinny128_set_tweaked_key(&a128, key, 32); else skinny64_set_tweaked_key(&a64, key, 16);
+            for (n = 0; n < N; ++n) { memset(pt, (int)n, 16); pt[n & 7] ^= (uint8_t)(n >> 8); if (bb == 16) skinny128_set_tweak(&a128, pt, 16); else skinny64_set_tweak(&a64, pt, 8); }
+            aged = 1; VH_COUNT("aged_schedules_tainted_after_many_public_tweak_changes", 1); VH_MAXC("max_public_changes_before_the_tainted_call", N);
+        }
         SECRET(key, 48); SECRET(blk, 16); SECRET(tw, 16);
         if (bb == 16) {
             if (sub == 0) { call_begin("skinny128_set_key", "-", params); skinny128_set_key(&a128.ks, key, L); call_end(params); }
-            else { call_begin("skinny128_set_tweaked_key", "-", params); skinny128_set_tweaked_key(&a128, key, sub == 1 ? L : 16 + 16 * (unsigned)(q & 1)); call_end(params); }
+            else if (!aged) { call_begin("skinny128_set_tweaked_key", "-", params); skinny128_set_tweaked_key(&a128, key, sub == 1 ? L : 16 + 16 * (unsigned)(q & 1)); call_end(params); }
             if (sub == 2) {
                 call_begin("skinny128_set_tweak", "-", params); skinny128_set_tweak(&a128, (q & 32) ? NULL : tw, L); call_end(params);
                 /* later tweak changes replace a SECRET tweak (the first one replaced the public all-zero tweak) */
@@ -89,7 +105,7 @@ static void case_plain(uint64_t k, vh_rng *r)
             call_begin("skinny128_ecb_decrypt", "-", params); skinny128_ecb_decrypt(out, blk, &a128.ks); call_end(params);
         } else {
             if (sub == 0) { call_begin("skinny64_set_key", "-", params); skinny64_set_key(&a64.ks, key, L); call_end(params); }
-            else { call_begin("skinny64_set_tweaked_key", "-", params); skinny64_set_tweaked_key(&a64, key, sub == 1 ? L : 8 + 8 * (unsigned)(q & 1)); call_end(params); }
+            else if (!aged) { call_begin("skinny64_set_tweaked_key", "-", params); skinny64_set_tweaked_key(&a64, key, sub == 1 ? L : 8 + 8 * (unsigned)(q & 1)); call_end(params); }
             if (sub == 2) {
                 call_begin("skinny64_set_tweak", "-", params); skinny64_set_tweak(&a64, (q & 32) ? NULL : tw, L); call_end(params);
                 call_begin("skinny64_set_tweak", "-", params); skinny64_set_tweak(&a64, tw, 8); call_end(params);
@@ -141,6 +157,11 @@ static void case_ctr(uint64_t k, vh_rng *r)
     if (c->ctr_backend(&h) != be) { viol("C08:backend-not-pinned", "{}"); c->ctr_cleanup(&h); return; }
     SECRET(SEC, 48); SECRET(SEC + 64, 16); SECRET(SEC + 96, 16); SECRET(SEC + 128, 256 + total);
     call_begin(fn[1], ben, params); if (tweaked) c->ctr_set_tkey(&h, SEC, klen); else c->ctr_set_key(&h, SEC, klen, 5 + (unsigned)(q % 4)); call_end(params);
+    if (q % 83 == 41 && (tweaked || c->id == CIPH_MANTIS)) {      /* an "old" object: many earlier public tweak changes (see case_plain) */
+        unsigned n, N = aged_changes(); uint8_t pt[16];
+        for (n = 0; n < N; ++n) { memset(pt, (int)n, 16); pt[n & 7] ^= (uint8_t)(n >> 8); c->ctr_set_tweak(&h, pt, c->id == CIPH_MANTIS ? 8 : c->bb); }
+        VH_COUNT("aged_ctr_objects_tainted_after_many_public_tweak_changes", 1);
+    }
     if (tweaked || c->id == CIPH_MANTIS) {
         call_begin(fn[2], ben, params); c->ctr_set_tweak(&h, SEC + 64, tlen); call_end(params);
         call_begin(fn[2], ben, params); c->ctr_set_tweak(&h, SEC + 72, tlen); call_end(params);      /* replaces a secret tweak */
